@@ -21,7 +21,7 @@ use vcore::*;
 // =====================================================================================
 
 const STRIDE: usize = 5;
-const N_OPS: u64 = 142;
+const N_OPS: u64 = 144;
 
 fn op_strategy() -> BoxedStrategy<[u64; STRIDE]> {
     (0..N_OPS, 0u64..4, 0u64..4, 0u64..4, prop_oneof![2 => limb(), 1 => 0u64..600, 1 => any::<u64>()])
@@ -388,7 +388,15 @@ fn produce<const B: usize, const L: usize, const B2: usize, const L2: usize>(
         138 => toq!("q=wrapping_to", x.wrapping_to::<Uint<B2, L2>>()),
         139 => toq!("q=q*q+MAX", qa.wrapping_mul(q[(a + 1) % 2]).wrapping_add(Uint::<B2, L2>::MAX)),
         140 => toq!("q=q<<imm", qa << (us % (B2 + 2))),
-        _ => toq!("q=!q", !qa),
+        141 => toq!("q=!q", !qa),
+        // the two generators that draw from the thread-local RNG: their values are checked but
+        // never stored (body2), so that a history stays a pure function of the case
+        142 => some!("thread_rng random()", U::<B, L>::random()),
+        _ => {
+            let mut t = x;
+            t.randomize();
+            some!("thread_rng randomize()", t)
+        }
     }
 }
 
@@ -412,6 +420,11 @@ fn body2<const B: usize, const L: usize, const B2: usize, const L2: usize>(c: &C
             }
             Ok((n, nr, nq, oob)) => {
                 name = n;
+                if let (true, Some(v)) = (n.starts_with("thread_rng"), nr) {
+                    invariant(rec, &[v], name)?;
+                    trace.push(name);
+                    continue;
+                }
                 if let Some(v) = nr {
                     if B % 64 != 0 && (oob || v.bit(B - 1)) {
                         nontrivial = true;
@@ -704,7 +717,7 @@ fn main() {
     }
     let spec = PropSpec {
         id: "C04",
-        rule_text: "Part A: register machine with 4 registers of Uint<BITS> and 2 of a second width; histories = 1..39 steps drawn from a catalogue of 142 safe public producers (constants; from_limbs / from_limbs_slice and its checked / wrapping / overflowing / saturating forms incl. out-of-range and over-long limb vectors; conversions from u64/i64/u128/i128/f64/f32 and other-width Uints; byte, string, digit decoders on generated inputs; all arithmetic, bit, shift, rotate, modular, gcd, pow, root operations; set_bit incl. out-of-range indices; rand 0.8 / 0.9 with seeded RNGs, arbitrary over generated bytes, proptest any() incl. shrunk values, quickcheck; serde_json, bincode, rlp, alloy-rlp, SCALE fixed/compact, SSZ, borsh, DER decoders fed encodings of the other-width registers; num-traits constructors; BigUint/BigInt conversions; Sum/Product; Bits wrapper). A step that panics leaves the registers unchanged. Invariant after every step: every register canonical (bits >= BITS zero, read through as_limbs), and for every register pair ==, Hash (SipHash, fixed keys), cmp, partial_cmp, <, <=, >, >=, min, max, is_zero agree with the integers. Exhaustive for BITS in {1,2,3,5,6}: all (a,b) pairs x every producer. Non-trivial history: non-aligned width and some step produced a value with bit BITS-1 set or was handed out-of-range input. Part B: generated programs for every ill-formed (BITS,LIMBS) in {0,1,63,64,65,128,129} x {0,1,2,3} x a catalogue of 60 constants/constructors; each obtains the value and dumps its raw memory without calling another Uint method; a compile error or run-time panic is correct, printing OBTAINED is a violation; every catalogue entry has control twins (well-formed LIMBS at 64 and 129 bits) that must print OBTAINED.",
+        rule_text: "Part A: register machine with 4 registers of Uint<BITS> and 2 of a second width; histories = 1..39 steps drawn from a catalogue of 144 safe public producers (constants; from_limbs / from_limbs_slice and its checked / wrapping / overflowing / saturating forms incl. out-of-range and over-long limb vectors; conversions from u64/i64/u128/i128/f64/f32 and other-width Uints; byte, string, digit decoders on generated inputs; all arithmetic, bit, shift, rotate, modular, gcd, pow, root operations; set_bit incl. out-of-range indices; rand 0.8 / 0.9 with seeded RNGs, random() and randomize() on the thread-local RNG (checked, never stored), arbitrary over generated bytes, proptest any() incl. shrunk values, quickcheck; serde_json, bincode, rlp, alloy-rlp, SCALE fixed/compact, SSZ, borsh, DER decoders fed encodings of the other-width registers; num-traits constructors; BigUint/BigInt conversions; Sum/Product; Bits wrapper). A step that panics leaves the registers unchanged. Invariant after every step: every register canonical (bits >= BITS zero, read through as_limbs), and for every register pair ==, Hash (SipHash, fixed keys), cmp, partial_cmp, <, <=, >, >=, min, max, is_zero agree with the integers. Exhaustive for BITS in {1,2,3,5,6}: all (a,b) pairs x every producer. Non-trivial history: non-aligned width and some step produced a value with bit BITS-1 set or was handed out-of-range input. Part B: generated programs for every ill-formed (BITS,LIMBS) in {0,1,63,64,65,128,129} x {0,1,2,3} x a catalogue of 60 constants/constructors; each obtains the value and dumps its raw memory without calling another Uint method; a compile error or run-time panic is correct, printing OBTAINED is a violation; every catalogue entry has control twins (well-formed LIMBS at 64 and 129 bits) that must print OBTAINED.",
         assumptions: vec![
             "Part A keeps no model of the operations' semantics: it can only alarm about the invariant",
             "quickcheck::Gen cannot be seeded: its values are checked but not reproducible from the seed (failing values are saved in the replay file)",
